@@ -610,6 +610,11 @@ class Explorer(object):
                 return list(recv)
             if m == 'map' and len(args) == 1:
                 return [self.apply(args[0], [x], node) for x in recv]
+            if m in ('findIndex', 'find') and len(args) == 1:
+                for i_, x in enumerate(recv):
+                    if self.truth(self.apply(args[0], [x], node), node):
+                        return i_ if m == 'findIndex' else x
+                return -1 if m == 'findIndex' else None
             if m in ('some', 'every') and len(args) == 1:
                 ts = [self.truth(self.apply(args[0], [x], node), node) for x in recv]
                 return any(ts) if m == 'some' else all(ts)
